@@ -413,6 +413,28 @@ impl Graph for SG {
                         }
                         if o.err.is_some() {
                             self.errs.fetch_add(1, Ordering::Relaxed);
+                        } else {
+                            // latent damage: the malformed message was accepted, so the session must
+                            // keep working - an empty call and a ping must return
+                            let ping = c.h.peer_bytes(&SAct::Ping { ts: 7 }).unwrap();
+                            let hh = &mut c.h;
+                            out.impl_steps += 2;
+                            let r = probe("server-handle_input-after-malformed", i as u64, *t as u64, bytes.len() + ping.len() + 4096, 256, || {
+                                let mut o = Obs::empty();
+                                hh.input(&[], &mut o);
+                                if o.panicked.is_none() {
+                                    hh.input(&ping, &mut o);
+                                }
+                                o
+                            });
+                            let p = match r {
+                                Err((sig, d)) => Some((sig, d)),
+                                Ok(o) => o.panicked.map(|p| (format!("C03/panic/server-session-after-accepted-message/{}", panic_class(&p)), format!("handle_input panicked: {}", p))),
+                            };
+                            if let Some((sig, d)) = p {
+                                out.viol.push((sig, format!("{} ; after {:?} the peer sent type {} on stream {} body {} (accepted), then an empty call / a ping request", d, a, t, msid, hex(body))));
+                                return out;
+                            }
                         }
                     }
                 }
@@ -484,6 +506,26 @@ impl Graph for CG {
                         }
                         if o.err.is_some() {
                             self.errs.fetch_add(1, Ordering::Relaxed);
+                        } else {
+                            let ping = c.h.peer_bytes(&CAct::Ping { ts: 7 }).unwrap();
+                            let hh = &mut c.h;
+                            out.impl_steps += 2;
+                            let r = probe("client-handle_input-after-malformed", i as u64, *t as u64, bytes.len() + ping.len() + 4096, 256, || {
+                                let mut o = Obs::empty();
+                                hh.input(&[], &mut o);
+                                if o.panicked.is_none() {
+                                    hh.input(&ping, &mut o);
+                                }
+                                o
+                            });
+                            let p = match r {
+                                Err((sig, d)) => Some((sig, d)),
+                                Ok(o) => o.panicked.map(|p| (format!("C03/panic/client-session-after-accepted-message/{}", panic_class(&p)), format!("handle_input panicked: {}", p))),
+                            };
+                            if let Some((sig, d)) = p {
+                                out.viol.push((sig, format!("{} ; after {:?} the server sent type {} body {} (accepted), then an empty call / a ping request", d, a, t, hex(body))));
+                                return out;
+                            }
                         }
                     }
                 }
